@@ -32,7 +32,7 @@ func DecodeStruct(b []byte) (dataSize int, size int, err error) {
 
 	// Data size
 	dataSize_, n := decodeSize(b[:end])
-	if n < 0 {
+	if n <= 0 {
 		err = errors.New("decode struct: invalid data size")
 		return
 	}
